@@ -15,7 +15,7 @@ import fqeio
 from props import c01, c02, c12
 
 PID = 'C17'
-MODES = ['C']
+MODES = ['C', 'PY0']
 COMPARE_ARITY = 4
 
 
@@ -46,6 +46,18 @@ def gen_cases(rng, tier):
         cases.append({'kind': 'givens', 'variant': variant, 'norb': norb, 'mode': mode, 'n': nn, 'sz': sz,
                       'vec': fqeio.random_state(rng, norb, keys, density=0.8, amp=2),
                       'G': [[list(x) for x in row] for row in G], 'd': d})
+    # unrestricted rotations (every rotation between neighbouring spin orbitals of different spin changes S_z), systematically
+    # over the electron number - odd and even - for 1, 2 and 3 orbitals, real and complex, at least two Givens factors
+    for norb in (1, 2, 3):
+        for nn in range(0, 2 * norb + 1):
+            if tier == 'quick' and norb == 3 and nn in (0, 4, 6):
+                continue
+            for real in ((False, True) if tier != 'quick' else (nn % 2 == 0,)):
+                G, d = c12.random_unitary(rng, 2 * norb, rng.choice([2, 3, 4]), real=real)
+                keys = fqeio.sector_keys(norb, 'sb', nn, 0)
+                cases.append({'kind': 'givens', 'variant': 'unrestricted', 'norb': norb, 'mode': 'sb', 'n': nn, 'sz': 0,
+                              'vec': fqeio.random_state(rng, norb, keys, density=0.8, amp=2),
+                              'G': [[list(x) for x in row] for row in G], 'd': d})
     for _ in range(20 if tier == 'quick' else 120):
         norb = rng.randint(1, 3)
         conv = rng.choice(['unrestricted', 'alpha_beta', 'alpha', 'beta', 'dc'])
